@@ -1080,6 +1080,8 @@ def mut_borrowed(body):
 def unique_def(body, local):
     """the single whole-local definition of `local`, or None. A scalar / array local whose address is taken mutably may be rewritten
     through the reference and therefore has no unique definition."""
+    if 1 <= local <= body.arg_count:
+        return None   # a parameter is defined at entry: an assignment to it (`buffer = rest`) is a second definition
     ds = body.defs.get(local, [])
     whole = [d for d in ds if not (d[2] == 'assign' and d[3].place[1])]
     if len(whole) != 1:
